@@ -14,7 +14,7 @@ PMenu == << [n |-> "id", loc |-> "path", kind |-> "str", req |-> TRUE], [n |-> "
             [n |-> "kind", loc |-> "path", kind |-> "enum", req |-> TRUE], [n |-> "X-Kind", loc |-> "header", kind |-> "enum", req |-> FALSE] >>
 MenuSet == {PMenu[i] : i \in 1..Len(PMenu)}
 ParamSeqs == {q \in UNION {[1..k -> MenuSet] : k \in 0..MaxParams} : \A a, b \in 1..Len(q) : a # b => <<q[a].n, q[a].loc>> # <<q[b].n, q[b].loc>>}
-BodySeq == <<"none", "json", "jsonarr", "form", "multi", "octet", "json|form:json", "json|form:form", "vnd+json">>
+BodySeq == <<"none", "json", "jsonarr", "form", "multi", "octet", "json|form:json", "json|form:form", "vnd+json", "json;param">>
 MyBodies == {BodySeq[j] : j \in {k \in 1..Len(BodySeq) : k % Parts = Part}}
 RMenu == << [status |-> 200, how |-> "model"], [status |-> 201, how |-> "text"], [status |-> 204, how |-> "none"], [status |-> 404, how |-> "list"],
             [status |-> 202, how |-> "int"], [status |-> 206, how |-> "file"], [status |-> 205, how |-> "none"] >>
